@@ -5,7 +5,7 @@
      (defn brk [a] (for lp: [(def i 0) (< i 5) (set i (+ i 1))]
                       (let [k 1] (newScope (cond (== i a) (break lp:) (== i 1) (continue lp:) 0)))) a)
      (defn sq [x & r] ^(1 ~x ~@r [2 ~x]))
-     (func e5 [] [a:int64 b:int64])      -- known finding func-decl-returns: rejected *)
+     (func e6 [] [a:int64])              -- known finding func-decl-returns (code_e5): rejected *)
 From Coq Require Import List ZArith.
 Require Import ZV.Model.Bytecode ZV.Model.Verifier.
 Import ListNotations.
